@@ -316,7 +316,7 @@ func checkC13(c *Check) {
 		if u.Parent() != mW {
 			continue
 		}
-		g := edgesWhere(mW, cCmp(token.NEQ, vField(vParam(mW, 0), "method"), vConstStr("HEAD")), true)
+		g := edgesWhere(mW, headCond(p, vParam(mW, 0)), false)
 		ok, path := guardedBy(mW, g, isInstr(u))
 		if ok && len(g) > 0 {
 			c.OK(p.FuncKey(mW)+":head-guard", p.Pos(u.Pos()), "underlying Write only on the method != HEAD edge", numInstrs(mW))
@@ -326,7 +326,7 @@ func checkC13(c *Check) {
 	}
 	// converse: a non-HEAD Write always forwards (no status- or size-dependent filter drops the body)
 	{
-		notHead := edgesWhere(mW, cCmp(token.NEQ, vField(vParam(mW, 0), "method"), vConstStr("HEAD")), false)
+		notHead := edgesWhere(mW, headCond(p, vParam(mW, 0)), true)
 		var us []ssa.Instruction
 		for _, u := range under["Write"] {
 			if u.Parent() == mW {
@@ -469,24 +469,33 @@ func checkDescendingHookLoop(c *Check, fn *ssa.Function, fHooks *types.Var) {
 		found = true
 		key := p.FuncKey(fn) + ":hook-loop"
 		pos := p.Pos(in.Pos())
-		phi, ok := ia.Index.(*ssa.Phi)
-		if !ok || len(phi.Edges) != 2 {
+		// index = φ + c0 with φ = (len(hooks) + a, φ − 1): the indices visited are len+a+c0, len+a+c0−1, …
+		il := linOf(ia.Index)
+		var phi *ssa.Phi
+		for v, cf := range il.t {
+			if ph, isPhi := v.(*ssa.Phi); isPhi && cf == 1 && len(il.t) == 1 && len(ph.Edges) == 2 {
+				phi = ph
+			}
+		}
+		if phi == nil {
 			c.Undecided(key, pos, "hook index is not a two-edge loop variable: "+vstr(ia.Index))
 			return
 		}
+		c0 := il.k
 		isHooksLen := vLen(func(v ssa.Value) bool { return fieldOf(addrOfLoad(v)) == fHooks })
 		initOK, stepOK := false, false
 		for _, e := range phi.Edges {
-			if vBin(token.SUB, isHooksLen, vConstInt(1))(e) {
+			// first index len−1  ⇔  init + c0 = len − 1
+			if linSum(-1-c0, isHooksLen)(linOf(e)) {
 				initOK = true
 			}
-			if vBin(token.SUB, vIs(phi), vConstInt(1))(e) || vBin(token.ADD, vIs(phi), vConstInt(-1))(e) {
+			if linSum(-1, vIs(phi))(linOf(e)) {
 				stepOK = true
 			}
 		}
-		// loop condition i >= 0 guards the call
-		g := edgesWhere(fn, cCmp(token.GEQ, vIs(phi), vConstInt(0)), true)
-		g2 := edgesWhere(fn, cCmp(token.GTR, vIs(phi), vConstInt(-1)), true)
+		// the call is made only while index >= 0, i.e. not (φ + c0 < 0)
+		g := edgesWhere(fn, cLinLess(linSum(c0, vIs(phi))), false)
+		g2 := EdgeSet{}
 		guarded, _ := guardedBy(fn, union(g, g2), isInstr(in))
 		if initOK && stepOK && guarded && len(g)+len(g2) > 0 {
 			c.OK(key, pos, "hooks invoked as beforeFuncs[i], i = len-1 … 0 step -1 (reverse registration order, each once)", numInstrs(fn))
@@ -500,5 +509,56 @@ func checkDescendingHookLoop(c *Check, fn *ssa.Function, fHooks *types.Var) {
 	})
 	if !found {
 		c.Bad(p.FuncKey(fn)+":hook-loop", p.FuncPos(fn), "no invocation of beforeFuncs[i] found in the hook runner")
+	}
+}
+
+// headCond recognises "the request method is HEAD" on the writer recv: w.method == "HEAD",
+// or a boolean field that is stored only by the constructor, from method == "HEAD".
+func headCond(p *Prog, recv VM) CondM {
+	direct := cCmp(token.EQL, vField(recv, "method"), vConstStr("HEAD"))
+	return func(v ssa.Value) (bool, bool) {
+		if ok, pos := direct(v); ok {
+			return ok, pos
+		}
+		inner, pos := unNot(v)
+		r, names, ok := fieldPath(inner)
+		if !ok || len(names) != 1 || !recv(r) {
+			return false, false
+		}
+		f := p.Field("flamego", "responseWriter", names[0])
+		if f == nil {
+			return false, false
+		}
+		if b, isB := f.Type().Underlying().(*types.Basic); !isB || b.Kind() != types.Bool {
+			return false, false
+		}
+		ctor := p.Fn("flamego", "NewResponseWriter")
+		if ctor == nil {
+			return false, false
+		}
+		n := 0
+		good := true
+		for _, u := range p.FieldUses(f) {
+			if u.Kind != "store" {
+				continue
+			}
+			st, isSt := u.Instr.(*ssa.Store)
+			if !isSt {
+				good = false
+				continue
+			}
+			n++
+			if st.Parent() != ctor {
+				good = false
+				continue
+			}
+			if m, ps := cCmp(token.EQL, vParam(ctor, 0), vConstStr("HEAD"))(st.Val); !m || !ps {
+				good = false
+			}
+		}
+		if n == 0 || !good {
+			return false, false
+		}
+		return true, pos
 	}
 }
